@@ -31,7 +31,7 @@ ASSUMPTIONS = ['operand-pair coverage is input generation; the chain invariant a
 REAL = ['smartquery.* (operators, compound assignment, numeric builtins)', 'decimal']
 STUB = ['host (supplies numeric variables of every Python numeric type)']
 REACH_PROBES = ('host_int_operand', 'long_int_operand', 'float_operand', 'big_exponent_operand', 'mul_on_non_number_refused',
-                'compound_mul', 'compound_index_mul', 'pow', 'numeric_builtin', 'arithmetic_error', 'chain5', 'nested_eval_product', 'builtin_name_rebound_by_program')
+                'compound_mul', 'compound_index_mul', 'pow', 'numeric_builtin', 'arithmetic_error', 'chain5', 'nested_eval_product', 'builtin_name_rebound_by_program', 'many_distinct_operands')
 
 VARS = ['i', 'j', 'k', 'k2', 'm47', 'm47b', 'b10', 'big', 'huge', 'f', 'g', 't', 'd', 'e', 'm', 'w', 'hs', 'he', 'hs2']
 SMALL_EXPONENTS = ['i', 'j', 't', 'w', 'd']     # exponents are kept small so that a tree computing ** natively still terminates
@@ -59,6 +59,9 @@ def _world(r):
         'hs': {'isub': str(r.choice([2 ** 64 - 1, 10 ** 18 + 3, 12345678901234567890123]))},        # int subclass instances
         'hs2': {'isub': str(r.choice([10 ** 15 + 1, 7, 2 ** 62 + 1]))},
         'he': {'ienum': str(r.choice([10 ** 17 + 9, 2 ** 63, 3]))},                                 # an IntEnum member
+        'l101': {'rep': [{'d': r.choice(['1234567890123456789012345678', '9999999999999999999999999999', '0.000000000000000000000000001'])}, 101]},
+        'l150i': {'rep': [{'i': str(r.choice([10 ** 17 + 3, 2 ** 63 + 11]))}, 150]},
+        'dl80': [{'i': str(10 ** 20 + 7 * i + 1)} for i in range(80)],
         's': 'ab',
         'l': [1, 2],
         'c': {'m': [['k', r.choice([3, {'d': '2.5'}, {'i': str(10 ** 30)}, 'ab', [1]])], ['q', {'d': '4'}]]},
@@ -77,6 +80,10 @@ def _operand(r):
 
 def _gen_op(r):
     k = weighted(r, [('bin', 7), ('short', 5), ('setitemop', 3), ('neg', 1), ('builtin', 5), ('chain', 1.5), ('nested', 1), ('rebound', 0.8)])
+    if k == 'nested' and r.random() < 0.3:
+        # eighty DIFFERENT host ints go through one multiplication each (whatever table or cache sits behind the operator
+        # sees more distinct operands than it was sized for)
+        return {'kind': 'manymul', 'op': '*', 'prog': ['assign', 'r3', ['call', 'map', [['name', 'dl80'], ['lambda', ['v'], ['bin', '*', ['name', 'v'], ['name', r.choice(['k', 'k2', 'hs'])]]]], 'plain']]}
     if k == 'nested':
         # inside a reduce / map / sum the host function nest(a, b) evaluates "p * q / 3" on the SAME parser (an
         # evaluation of its own, in the middle of this one): that product obeys the same bound
@@ -135,7 +142,9 @@ def _gen_op(r):
         return {'kind': 'short', 'op': op, 'prog': ['short', v, op, ['name', v]], 'chain': True}
     f = r.choice(['int', 'float', 'round', 'floor', 'ceil', 'abs', 'sum', 'min', 'max', 'round2'])
     a = _operand(r)
-    if f == 'sum':
+    if f == 'sum' and r.random() < 0.25:
+        args = [['name', r.choice(['l101', 'l150i'])]]        # more than a hundred addends
+    elif f == 'sum':
         args = [['list', [_operand(r) for _ in range(r.randint(1, 5))]]]
     elif f in ('min', 'max'):
         args = [a, _operand(r)]
@@ -273,6 +282,20 @@ def execute(case, ctx):
             if rout.kind == 'value' and not isinstance(res, Decimal):
                 ctx.report('mul_pow_not_decimal', '%s: %s returned %s %s, not a Decimal' % (what, op['op'], type(res).__name__, _safe_repr(res)),
                            {'kind': 'mul_pow_not_decimal', 'form': 'rebound', 'op': op['op']})
+            judged += 1
+            continue
+        if kind == 'manymul':
+            ctx.probe('many_distinct_operands')
+            res = names.get('r3')
+            if rout.kind == 'value' and isinstance(res, list):
+                for x in res:
+                    if not isinstance(x, Decimal):
+                        ctx.report('mul_pow_not_decimal', '%s: one of the %d products is %s %s, not a Decimal' % (what, len(res), type(x).__name__, _safe_repr(x)),
+                                   {'kind': 'mul_pow_not_decimal', 'form': 'manymul', 'op': '*'})
+                    elif x.is_finite() and len(x.as_tuple().digits) > 28:
+                        ctx.report('number_blowup', '%s: one of the products has %d significant digits' % (what, len(x.as_tuple().digits)),
+                                   {'kind': 'number_blowup', 'site': 'bin:*', 'cause': 'operator'})
+            names.pop('r3', None)
             judged += 1
             continue
         if kind == 'nested':
